@@ -78,6 +78,14 @@ def classify_failure(c, ub, unit_file):
     return "std", "%s @ %s" % (c["desc"], c["loc"])
 
 
+def label_props(desc):
+    """property tags of a labelled assertion ("C14,C01:unit:clause" -> {"C14","C01"}); None if unlabelled"""
+    m = kani_run.LABEL_RE.match(desc or "")
+    if not m or m.group(1) == "canary":
+        return None
+    return set(m.group(1).split(","))
+
+
 def in_extracted(c, ub, unit_file):
     f = c.get("file")
     if f and os.path.basename(f) == os.path.basename(unit_file) and c.get("line"):
@@ -189,6 +197,7 @@ def run_property(P, tier, seed, scratch, args, t0):
     # ---- decide kani results -----------------------------------------------------------
     ob_proof = ob_proof_ok = ob_bounded = ob_bounded_ok = 0
     reached_fns = set()      # (unit, function) with >= 1 reachable CBMC check located in extracted text
+    other_prop_failures = []  # failed labelled assertions whose tags do not include P
     samples = []
     per_harness = []
     for job, res, out in results:
@@ -231,12 +240,32 @@ def run_property(P, tier, seed, scratch, args, t0):
                 kind, what = classify_failure(c, ub, ufile)
                 if kind == "canary":
                     continue
-                if kind == "shim" or (kind == "std" and h.get("std_failures") != "violation"):
+                if kind == "contract":
+                    tags = label_props(c["desc"]) or set()
+                    if P not in tags:
+                        # belongs to another property (e.g. a decoded-value obligation of C14 seen
+                        # while checking C01): not a violation of P, but never dropped silently
+                        other_prop_failures.append((uname, h["name"], c["desc"]))
+                        continue
+                if kind == "shim":
+                    # an assertion of the hand-written environment itself (e.g. BStr capacity):
+                    # a bound overrun of the harness, not a statement about /repo
                     undecided.append(("%s/%s" % (uname, h["name"]),
-                                      "failure outside extracted text (%s): %s" % (kind, what)))
+                                      "failure inside a shim (bound overrun or harness bug): %s" % what))
                     continue
+                if kind == "std":
+                    # Rust's unwrap / expect / indexing / str slicing / RefCell panic INSIDE std
+                    # (unwrap_failed, slice_index_fail, ...), so CBMC always locates them there, never
+                    # at the call site.  Harness and shim code is written so that it cannot panic in
+                    # std (every index / unwrap of its own is guarded by an assume), hence a
+                    # std-located failure is a panic reached from the code under test.  It is a
+                    # violation with its own witness; replay on the real binary is the backstop (a
+                    # harness-caused one does not reproduce and ends in no-failing-input-found).
+                    kind = "safety-std"
+                    what = "panic/safety failure in std reached from the unit: " + what
                 violations.append({"unit": uname, "harness": h["name"], "kind": kind, "obligation": what,
-                                   "playback": res.get("playback"), "replay_adapter": h.get("replay"),
+                                   "playback": kani_run.playback_for(res.get("playback"), c["desc"]),
+                                   "replay_adapter": h.get("replay"),
                                    "raw_tail": res["raw_tail"], "cmd": res["cmd"]})
             continue
         # pass: vacuity guards
@@ -254,6 +283,12 @@ def run_property(P, tier, seed, scratch, args, t0):
             undecided.append(("%s/%s" % (uname, h["name"]), "vacuous: zero labelled contract assertions"))
             continue
         labelled = [c for c in labelled if c["status"] != "UNREACHABLE"]
+        # obligations OF P: labelled assertions whose own tag list contains P (the vacuity guards
+        # above deliberately look at all labels: they are about the harness being alive)
+        n_all_labels = len(labelled)
+        labelled = [c for c in labelled if P in (label_props(c["desc"]) or set())]
+        ph["contract_assertions_of_this_property"] = len(labelled)
+        ph["contract_assertions_of_other_properties_in_harness"] = n_all_labels - len(labelled)
         # A check this harness cannot reach is not an obligation of this harness (a concrete
         # interned-span harness never reaches the inline-encoding arithmetic).  It is reported
         # separately, never counted as discharged and never counted as an obligation.
@@ -361,6 +396,9 @@ def run_property(P, tier, seed, scratch, args, t0):
         seen.add(kf["id"])
         log("KNOWN-FINDING: property=%s %s: %s [%s]" % (P, kf["id"], kf["what"], where))
 
+    for (un, hn, d) in other_prop_failures:
+        log("NOTE: harness %s/%s also failed %r, an obligation of another property (not counted for %s; run that property's check)" % (un, hn, d, P))
+
     total_checked = ob_proof + ob_bounded
     if not violations and not undecided and total_checked == 0:
         undecided.append((P, "vacuous: zero obligations generated"))
@@ -419,6 +457,7 @@ def run_property(P, tier, seed, scratch, args, t0):
         "solver_time_s": round(sum((p.get("solver_s") or 0) for p in per_harness) + sum(l.get("wall_s", 0) for l in lemma_res), 2),
         "undecided": [{"what": w, "reason": r} for w, r in undecided],
         "known_findings_reproduced": sorted(seen),
+        "failed_obligations_of_other_properties_seen": [{"unit": a, "harness": b, "obligation": c} for a, b, c in other_prop_failures],
     }
     ev = {"property_id": P, "tier": tier if tier in ("quick", "thorough") else "quick", "seed": seed, "level": level,
           "coverage": cov,
@@ -431,7 +470,11 @@ def run_property(P, tier, seed, scratch, args, t0):
     for l in vio_lines:
         log(l)
     if violations:
-        log("== %s: %d violation(s); %d/%d proof obligations discharged" % (P, len(violations), ob_proof_ok, ob_proof))
+        # undecided items are never dropped: they are printed even when the verdict is a violation
+        for w, r in undecided:
+            log("UNDECIDED property=%s what=%s reason=%s" % (P, w, r))
+        log("== %s: %d violation(s)%s; %d/%d proof obligations discharged" % (
+            P, len(violations), (", %d undecided" % len(undecided)) if undecided else "", ob_proof_ok, ob_proof))
         return 1
     if undecided:
         for w, r in undecided:
